@@ -151,8 +151,6 @@ impl Coroutine {
     }
 
     /// Get the internal cancel
-    #[cfg(unix)]
-    #[cfg(feature = "io_cancel")]
     pub(crate) fn get_cancel(&self) -> &Cancel {
         &self.inner.cancel
     }
@@ -479,14 +477,14 @@ pub(crate) fn current_cancel_data() -> &'static Cancel {
 }
 
 #[inline]
+#[cfg(any(windows, feature = "io_cancel"))]
 pub(crate) fn co_cancel_data(co: &CoroutineImpl) -> &'static Cancel {
     let local = unsafe { &*get_co_local(co) };
     &local.get_co().inner.cancel
 }
 
-// windows use delay drop instead
-#[cfg(unix)]
-#[cfg(feature = "io_cancel")]
+/// clone the handle of a coroutine: keeps its cancel data alive
+/// while the coroutine itself may already run (and finish) elsewhere
 pub(crate) fn co_get_handle(co: &CoroutineImpl) -> Coroutine {
     let local = unsafe { &*get_co_local(co) };
     local.get_co().clone()
